@@ -99,7 +99,14 @@ Proof.
     + apply run_lp_inv. rewrite Hw. intros id p H. vm_compute in H. discriminate.
     + apply run_pool_custody; [unfold setup0, ops0; cbn [firstn]; repeat constructor; try discriminate; exact I|].
       apply (genesis_pool_custody g0 w0 E); [cbn; lia | constructor; [intros []|constructor] | intros f [<-|[]]; cbn; unfold HALF_U128; lia | cbn; unfold HALF_U128; lia].
-    + unfold core0. repeat constructor; try discriminate.
+    + unfold core0.
+      repeat match goal with
+             | |- Forall _ [] => constructor
+             | |- Forall _ (_ :: _) =>
+                 constructor; [cbn [covered_op];
+                               first [exact I | discriminate
+                                     | (split; [discriminate | right; split; [reflexivity | first [exact I | discriminate | idtac]]])] |]
+             end.
       intros d. cbn [BankProofs.camt denom_of amount_of fst snd]. unfold U128_MAX. destruct (String.eqb "uom" d), (String.eqb "uusd" d); lia.
     + unfold core0. repeat constructor; try discriminate; exact I.
     + rewrite Hw. clear. vm_compute. reflexivity.
